@@ -68,7 +68,6 @@ pub open spec fn kres(cur: int, comps: Seq<Comp>, n: nat, nf: bool, nosym: bool)
 pub open spec fn kres_top(path: Seq<u8>, nf: bool, nosym: bool) -> KRes {
     if path.len() == 0 { KRes::Fail(libc::ENOENT as int) } else { kres(fs_root(), split(path), 0, nf, nosym) }
 }
-pub open spec fn cv(q: Seq<OsString>) -> Seq<Comp> { q.map_values(|s: OsString| s@) }
 pub open spec fn cur_inv(cur: int, stack: Seq<Comp>) -> bool {
     &&& (fs_is_dir(cur) ==> fs_depth(cur) == stack.len())
     &&& (!fs_is_dir(cur) ==> stack.len() > 0)
